@@ -35,6 +35,9 @@ CLAIMS = {
  'C13': ('pzv-bin', 'structure-aware generated search over the compiled tables (hook H1): exhaustive structural validity, directed edge coverage, exhaustive sub-cubes, random pairs against u32 semantics',
          'All 290 bit-circuits of the 11 compiled u32 circuits are read through hook H1 and evaluated by a clear evaluator that mirrors eval_level: every table is checked structurally (exhaustive), every edge of every table is exercised by directed inputs (100 % edge coverage measured), all 2^16 low-byte pairs under several high patterns, all shift amounts, carry chains and sign boundaries are enumerated and millions of random/boundary pairs compared with Rust u32 semantics.',
          'Not a proof for all 2^64 pairs (the statement asks for a symbolic decision, which is outside this technique family): an error confined to inputs sharing every table edge with correct sampled completions would escape. Trusted: the clear evaluator (cross-checked against the homomorphic one in C15).', 'DESIGN.md section 6 C13'),
+ 'C14': ('pzv-bin', 'model-based property testing: exact integer model of the table polynomial (hook H2), exhaustive rotation indices; blind path against the exact phase of hand-built LWE samples with an implementation-independent rounding window',
+         'Clear path: lookup_table_set / lookup_table_rotate vs. an integer model of the replicated, scaled, half-step pre-rotated and de-interleaved table for N 8..64, extension 1..8, every table length dividing the domain, k not a multiple of the radix, over generated rotation histories and (sub-check) every rotation index in [0, 2N*ext). Blind path: standard-binary (three distributions), block-binary and extended block-binary CGGI rotation over generated LWE dimensions, block sizes, radices (both modulus-switch branches), message bits 1..5, both directions, any index and sub-index fraction: the exact phase of the result under the clear GLWE secret must be X^r * table for an integer r within (1+|s|_1)/2+1 of the exact index, within a worst-case noise bound; for centred messages the constant coefficient is the table entry with the negacyclic sign on wrap-around.',
+         'Trusted: hooks H2 / H4, the table model, the worst-case noise bound (11 % of blind cases have a bound above the table resolution and are run for crashes only). The rounding window hides off-by-one errors of the modulus switch (they are inside the rounding error any implementation may make). N <= 64.', 'DESIGN.md section 6 C14'),
  'C15': ('pzv-bin', 'property-based testing of encrypted word operations and short programs against plain u32 semantics (decrypt with the clear key)',
          'Word operations (11 circuits) on prepared operands and on operands obtained through circuit bootstrapping, chains with re-preparation, sext / splice / get_bit / zero_byte / partial preparation at every index class, on three backends with the shipped parameter set; results are decrypted and compared with Rust.',
          'One parameter set (the shipped test layout N=256, n_lwe=77, rank 2); noise growth is observed through correctness of the decrypted words only.', 'DESIGN.md section 6 C15'),
